@@ -319,7 +319,7 @@ REASON_COMPONENT = {
     "offset-minute>=60": "zone",
     "offset-second>=60": "zone",
 }
-DIFF_COMPONENT = {"year": "date", "month": "date", "day": "date", "hour": "time", "minute": "time", "second": "time", "zone-kind": "zone", "offset-sign": "zone", "offset": "zone", "zone-id": "zone"}
+DIFF_COMPONENT = {"offset-sign-negative-sub-hour": "zone", "year": "date", "month": "date", "day": "date", "hour": "time", "minute": "time", "second": "time", "zone-kind": "zone", "offset-sign": "zone", "offset": "zone", "zone-id": "zone"}
 
 
 def actual_kind(kind, value):
@@ -342,7 +342,7 @@ def reason_component(kind, reason):
 def diff_component(kind, diff):
     if diff in DIFF_COMPONENT:
         return DIFF_COMPONENT[diff]
-    if diff == "fraction" and kind in ("t", "dt"):
+    if diff in ("fraction", "fraction-minus-1ns") and kind in ("t", "dt"):
         return "time"
     return KIND_COMPONENT[kind]
 
@@ -376,7 +376,10 @@ def zone_diff(a, b):
     if a is None or b is None or a[0] != b[0]:
         return "zone-kind"
     if a[0] == "off":
-        return "offset-sign" if a[1] == -b[1] else "offset"
+        if a[1] == -b[1]:
+            # the known class: a negative offset below one hour comes back positive
+            return "offset-sign-negative-sub-hour" if -3600 < a[1] < 0 else "offset-sign"
+        return "offset"
     return "zone-id"
 
 
@@ -389,16 +392,18 @@ def first_diff(kind, exp, got):
     if kind == "t":
         for name, a, b in zip(("hour", "minute", "second", "fraction"), exp[:4], got[:4]):
             if a != b:
-                return name
+                return "fraction-minus-1ns" if name == "fraction" and a - b == 1 else name
         return zone_diff(exp[4], got[4])
     if kind == "dt":
         for name, a, b in zip(("year", "month", "day", "hour", "minute", "second", "fraction"), exp[:7], got[:7]):
             if a != b:
-                return name
+                return "fraction-minus-1ns" if name == "fraction" and a - b == 1 else name
         return zone_diff(exp[7], got[7])
     if kind in ("dtd", "ymd"):
         if exp == got:
             return None
+        if kind == "dtd" and abs(exp) - abs(got) == 1 and (exp < 0) == (got < 0):
+            return "fraction-minus-1ns"  # the known class: one nanosecond lost towards zero
         if kind == "dtd" and (exp // R.NANOS == got // R.NANOS or abs(exp - got) < R.NANOS):
             return "fraction"
         if exp == -got:
@@ -459,7 +464,7 @@ class Judge:
         if cls.status == "undecided" and cls.reason == "fraction-beyond-nanoseconds" and cls.value is not None:
             # everything but the fraction is settled
             diff = first_diff(kind, cls.value if kind != "dur" else cls.value, pc.value)
-            if diff and diff != "fraction":
+            if diff and not diff.startswith("fraction"):
                 viol("lossy:%s:%s" % (diff_component(actual_kind(kind, pc.value)[0], diff), diff), "written %r but prints %r" % (text, s), None)
                 return
         if expected is not None:
@@ -642,8 +647,9 @@ def gen_constructed(rng, tier):
     # durations from arithmetic
     n_ar = 60 if tier == "quick" else 3000
     for _ in range(n_ar):
-        a = rng.randint(-(10**rng.randint(1, 18)), 10 ** rng.randint(1, 18))
-        b = rng.randint(-(10**rng.randint(1, 18)), 10 ** rng.randint(1, 18))
+        # whole seconds: a fractional duration literal would bring the known literal-fraction defect into the operands
+        a = rng.randint(-(10**rng.randint(1, 12)), 10 ** rng.randint(1, 12)) * R.NANOS
+        b = rng.randint(-(10**rng.randint(1, 12)), 10 ** rng.randint(1, 12)) * R.NANOS
         out.append(("dtd", 'duration("%s") + duration("%s")' % (R.canon_dtd(a), R.canon_dtd(b)), R.Cls("valid", a + b, None), "dtd-add"))
         out.append(("dtd", '-duration("%s")' % R.canon_dtd(a), R.Cls("valid", -a, None), "dtd-neg"))
         y1, m1, d1 = rng.randint(1000, 9999), rng.randint(1, 12), rng.randint(1, 28)
@@ -654,8 +660,18 @@ def gen_constructed(rng, tier):
         n1 = rng.randint(0, R.NANOS - 1)
         z2 = z1 + rng.randint(-4_000_000_000, 4_000_000_000)
         n2 = rng.randint(0, R.NANOS - 1)
-        out.append(("dtd", 'date and time("%s") - date and time("%s")' % (utc_text(z1, n1), utc_text(z2, n2)), R.Cls("valid", (z1 - z2) * R.NANOS + n1 - n2, None), "dt-sub"))
+        # operands built from numbers (exact decimal arithmetic), so that the literal fraction defect cannot leak in
+        out.append(("dtd", "%s - %s" % (local_expr(z1, n1), local_expr(z2, n2)), R.Cls("valid", (z1 - z2) * R.NANOS + n1 - n2, None), "dt-sub"))
+        out.append(("dtd", "-(%s - %s)" % (local_expr(z1, n1), local_expr(z2, n2)), R.Cls("valid", -((z1 - z2) * R.NANOS + n1 - n2), None), "dtd-neg"))
+        out.append(("dtd", '(%s - %s) + duration("%s")' % (local_expr(z1, n1), local_expr(z2, n2), R.canon_dtd(a)), R.Cls("valid", (z1 - z2) * R.NANOS + n1 - n2 + a, None), "dtd-add"))
     return out
+
+
+def local_expr(secs, nanos):
+    days, rem = divmod(secs, 86400)
+    y, m, d = R.civil_from_days(days)
+    sec = "%d%s" % (rem % 60, R.fmt_fraction(nanos))
+    return "date and time(date(%d, %d, %d), time(%d, %d, %s))" % (y, m, d, rem // 3600, rem % 3600 // 60, sec)
 
 
 def utc_text(secs, nanos):
